@@ -30,6 +30,10 @@ pub fn dispatch(op: &str, req: &Value) -> Result<Value, String> {
         return crate::ops_stateres::c08(k, req);
     }
     #[cfg(feature = "stateres")]
+    if op == "c06:creator_cache" {
+        return crate::ops_stateres::creator_cache(req);
+    }
+    #[cfg(feature = "stateres")]
     if op == "c06:separate" {
         return crate::ops_stateres::separate(req);
     }
